@@ -163,7 +163,12 @@ def oracle_params(orc: dict, src_prg, inp, out, auto_out) -> tuple[str, Optional
         return "preds", frozenset(vocabulary(src_prg))
     if mode == "out":
         if out == "auto":
-            return ("shown", None) if has_show(src_prg) else ("sat", None)
+            if not has_show(src_prg):
+                return "sat", None
+            from clingo.ast import ASTType  # pylint: disable=import-outside-toplevel
+
+            sigs = frozenset((s.name, s.arity) for s in src_prg if s.ast_type == ASTType.ShowSignature)
+            return "shown", sigs
         return "preds", frozenset(tuple(p) for p in out)
     if mode == "inout":
         o = auto_out if out == "auto" else out
